@@ -36,33 +36,41 @@ REQUIRED_CLASSES = ["op:aspirate", "op:dispense", "op:transfer", "op:distribute"
 MS = [1, 7, 50, 200, 950, 1200, 0.5, 2.5, 33.3, 950.5]
 
 
+STRATA = [[dev, focus] for dev in ("evo", "fluent") for focus in ("direct", "transfer", "distribute")]
+
+
 @st.composite
-def _case(draw, tier="quick"):
+def _case(draw, tier, stratum):
     big = tier == "thorough"
     q = draw(st.sampled_from([0.01, 0.01, None]))
     n = draw(st.integers(1, 3))
     labs = []
     names = ["Alpha", "Beta plate", "Gamma_3"]
+    device, focus = stratum
     for i in range(n):
         kind = draw(st.sampled_from(["plate", "trough"])) if i == 0 else draw(st.sampled_from(["plate", "plate", "trough"]))
         regime = draw(st.sampled_from(["roomy", "roomy", "tight"]))
+        if i == 0 and focus == "distribute":
+            kind = "trough"
         labs.append(
             draw(lab_spec(names[i], kind=kind, max_rows=16 if big else 8, max_cols=(24 if big else 12) if kind == "plate" else 6, regime=regime, grid=bool(q), q=q or 0.01, pos=(10 + i, 1 + i), filled=True if (i == 0 and draw(st.booleans())) else None))
         )
     vs = vs_ok(q)
     bigv = st.one_of(vs, st.fixed_dictionaries({"f": st.floats(0.3, 1.0).map(lambda x: round(x, 3))}))
-    ops = st.one_of(op_direct(vs, kinds=("aspirate", "dispense")), op_transfer(bigv), op_transfer(bigv), op_distribute(vs))
+    anyop = st.one_of(op_direct(vs, kinds=("aspirate", "dispense")), op_transfer(bigv), op_transfer(bigv), op_distribute(vs))
+    fop = {"direct": op_direct(vs, kinds=("aspirate", "dispense")), "transfer": op_transfer(bigv), "distribute": op_distribute(vs)}[focus]
+    ops = st.one_of(fop, anyop)
     return {
         "labs": labs,
-        "device": draw(st.sampled_from(["evo", "fluent"])),
+        "device": device,
         "q": q,
         "M": draw(st.sampled_from(MS)),
         "ops": draw(st.lists(ops, min_size=1, max_size=10)),
     }
 
 
-def strategy(tier):
-    return _case(tier)
+def strategy(tier, stratum):
+    return _case(tier, stratum)
 
 
 def _cidx(w):
